@@ -5,14 +5,8 @@ from .verify import Registry, verify_function
 from .smt import obligation_smt2, discharge, get_model
 
 def load(modname):
-    reg = Registry()
-    m = importlib.import_module('contracts.' + modname)
-    for f in getattr(m, 'FAMILIES', []):
-        reg.add_family(f)
-    reg.add_spec_module(m)
-    if hasattr(m, 'register'):
-        m.register(reg)
-    return reg, m
+    from .check import load_property
+    return load_property(modname)
 
 def main():
     modname = sys.argv[1]
